@@ -4,9 +4,9 @@ import (
 	"errors"
 	"fmt"
 	"math"
-	"strings"
 	"reflect"
 	"sort"
+	"strings"
 	"testing"
 	"time"
 
@@ -29,8 +29,8 @@ func TestMain(m *testing.M) { suite.HangLimit = 300 * time.Second; suite.Main(m)
 // see "value" through the supplied predicate/equality/order while the oracle can follow identities.
 type Case struct {
 	Fn   string  `json:"fn"`
-	In   []int   `json:"in"`             // values; element i has identity i
-	In2  [][]int `json:"in2,omitempty"`  // several slices / sets
+	In   []int   `json:"in"`            // values; element i has identity i
+	In2  [][]int `json:"in2,omitempty"` // several slices / sets
 	A    int     `json:"a,omitempty"`
 	B    int     `json:"b,omitempty"`
 	Mask int     `json:"mask,omitempty"` // predicate over values 0..7
